@@ -28,7 +28,8 @@ META = {
             "every content incl. empty ranks, whatever the target held (target_irrelevant); roundtrip_multi (multimap: same elements with the same "
             "multiplicities, sorted, same default value - runs of equal keys come back reversed); image_has_size / one_file_per_rank; serialize_overwrites_every_rank_file / serialize_forgets_previous_files / "
             "roundtrip_reused_prefix (whatever the rank files of the prefix held before, after serialize file r is rank r's image - also for ranks "
-            "owning nothing - and deserialize loads exactly what it would load from a fresh prefix); includes_pending "
+            "owning nothing - and deserialize loads exactly what it would load from a fresh prefix); includes_pending_in_issue_order / erased_pair_not_in_image (operations of one issuer on one key act in issue order: insert k; erase k "
+            "leaves k out of the image); deserialize_discards_pending (unflushed operations on the target do not survive); rank_file_names_distinct; includes_pending "
             "/ includes_pending_bag (serialize starts with a barrier: every pending operation destined to a rank is applied exactly once before that "
             "rank writes). The model is tied to the code by parsing every written file, comparing its string tokens with Ser.escape, the reloaded "
             "stores with Ser.cLoad + Ser.rebuild, and cereal's reader with Ser.cLoad on generated tokens.",
@@ -44,7 +45,10 @@ RULE = ("generated: a case = (kind, layout, #inserts per rank, flags, seed); fla
         "serialize, only-rank-0 inserts (ranks owning nothing), non-empty default value, two-letter alphabet (duplicates, equal-key runs), NUL bytes, reused prefix (first a big or a tiny container X to the same prefix, then Y with "
         "few keys on rank 0 only / empty / big; files also planted at rank indices size..2*size-1 and one unparsable file beyond); "
         "strings mix printable, control (1..31), quote/backslash/slash, bytes >= 0x80 and a table of special strings; non-trivial = at least one "
-        "string token needing an escape or a non-ASCII byte, or an equal-key run, or a rank owning nothing; reader: generated JSON string tokens")
+        "string token needing an escape or a non-ASCII byte, or an equal-key run, or a rank owning nothing; two counting_sets of one type alive with un-flushed caches at serialize and deserialize (either registration order, inserts continue "
+        "afterwards); 2500 dependent pairs (insert;erase / insert v1;insert v2) per rank pending at serialize with capacity 0 and 8 posted receives; "
+        "unflushed operations on the target; 9/10/11 ranks; floating-point items; environment rotated over the cases: Issend frequency 0/1/8, posted "
+        "receives 1/2/8, isends-wait 0/1/4, send buffer default/0/1 KB with every kind, cyclic node placement; reader: generated JSON string tokens")
 
 LAYOUTS = [(1, 1), (1, 2), (1, 3), (1, 4), (2, 2)]
 KINDS = ["map", "multimap", "set", "multiset", "bag", "cset", "mapcount", "bagd", "bagpd", "mapd"]
